@@ -491,6 +491,11 @@ fn _factor_inner<T: FloatT>(
     *regularize_count = 0;
     let mut positiveValuesInD = 0;
 
+    // nothing to factor for an empty matrix
+    if n == 0 {
+        return Ok(positiveValuesInD);
+    }
+
     // partition working memory into pieces
     let y_markers = bwork;
     let (y_idx, iwork) = iwork.split_at_mut(n);
